@@ -39,6 +39,10 @@ func nodeTerms(m *sx.Machine, nodes []*sx.Node) []*smt.Term {
 		add(n.Rep)
 		add(n.CRep)
 		add(n.Wrap)
+		if n.JBad != nil {
+			add(n.JBad)
+		}
+		add(n.NZ)
 		add(n.IVal)
 		add(n.JN)
 		add(n.JK)
@@ -458,6 +462,9 @@ func concretizeNumber(m *sx.Machine, md Model, n *sx.Node) (any, error) {
 		mant := md.Int(n.Mant)
 		e := n.Tm.Exps[md.Int(n.Esel)]
 		f := math.Ldexp(float64(mant), e)
+		if f == 0 && n.NZ != nil && md.Bool(n.NZ) {
+			f = math.Copysign(0, -1)
+		}
 		if math.IsInf(f, 0) {
 			return nil, fmt.Errorf("float overflow in model")
 		}
@@ -466,6 +473,9 @@ func concretizeNumber(m *sx.Machine, md Model, n *sx.Node) (any, error) {
 		}
 		return f, nil
 	case rep == sx.RepJSONNumber:
+		if n.JBad != nil && md.Bool(n.JBad) {
+			return json.Number(sx.BadJSONNumberText), nil // valid JSON, but math/big refuses the exponent
+		}
 		num := md.Big(n.JN)
 		k := int(md.Int(n.JK))
 		return json.Number(decimalString(num, k)), nil
